@@ -1,8 +1,8 @@
 //! Verification hook (compiled only with `--cfg uec_verif`): a second state struct the
 //! `push_state` macro is applied to, with a different number, naming and typing of stacks than
 //! `PushState` and no input instructions. It lets the builder type-state and the generated
-//! `HasStack` accessors be observed on a struct other than `PushState`. Not part of the crate
-//! otherwise.
+//! `HasStack` accessors be observed on a struct other than `PushState` (one stack carries a
+//! `builder_name`). Not part of the crate otherwise.
 use crate::push_vm::{program::PushProgram, stack::Stack};
 
 #[derive(Default, Debug, Clone, Eq, PartialEq)]
@@ -10,7 +10,8 @@ use crate::push_vm::{program::PushProgram, stack::Stack};
 pub struct MiniState {
     #[stack(exec)]
     pub code: Stack<PushProgram>,
-    #[stack]
+    // renamed in the builder: the generated methods are `with_omega_values` / `with_omega_max_size`
+    #[stack(builder_name = omega)]
     pub zeta: Stack<String>,
     #[stack]
     pub alpha: Stack<char>,
